@@ -355,11 +355,17 @@ def _emission(chk, fi, fm, loop) -> None:
 
     repo = chk.repo
     # emission
-    for store, mp, cls, en, lst in (("base_phosphate_pairs", "bph_map", "BasePhosphate", "BPh", "base_phosphates"), ("base_ribose_pairs", "br_map", "BaseRibose", "BR", "base_riboses")):
-        d = astq.first_assign(fi.node, mp)
-        chk.expect(d is not None and norm(d) == f"merge_and_clean_bph_br(sorted({store}))", "sorted-emission", fi.where, f"{mp} is built from the sorted contact list", f"{mp} is not merge_and_clean_bph_br(sorted({store})): output order follows KD-tree order", K(fi, f"{mp}-sorted"), found=norm(d) if d is not None else None)
-        chk.robust |= {"bph-emission"}
-        c11e.check_bph_emission(chk, fi, mp, cls, en)
+    stores = {"bph": "base_phosphate_pairs", "br": "base_ribose_pairs"}
+    try:
+        from checks import c03e
+
+        pm = c03e.pairs_model(chk, fi, loop)
+        stores = {"bph": pm.bph or stores["bph"], "br": pm.br or stores["br"]}
+    except Exception:
+        pass
+    chk.robust |= {"bph-emission"}
+    for tag, cls, en in (("bph", "BasePhosphate", "BPh"), ("br", "BaseRibose", "BR")):
+        c11e.check_bph_emission(chk, fi, stores[tag], cls, en)
     # base pair emission
     ems = c03.find_emission(c11e.with_local_helpers_inlined(fi), "base_base_pairs")
     if len(ems) != 1 or not (isinstance(ems[0][1], ast.Tuple) and len(ems[0][1].elts) == 3 and all(isinstance(e, ast.Name) for e in ems[0][1].elts)):
